@@ -213,7 +213,11 @@ class MultiTypeMap(dict):
                 rval = [
                     c
                     for c in candidates
-                    if not any(o.dominates(c) for o in candidates if o is not c)
+                    if not any(
+                        o.dominates(c) and not c.dominates(o)
+                        for o in candidates
+                        if o is not c
+                    )
                 ]
                 if not rval:  # pragma: no cover
                     rval = list(candidates)
